@@ -558,8 +558,17 @@ type namedAny interface{}
 type namedStrPair struct{ A, B *namedStr }
 type namedAnyPair struct{ A, B *namedAny }
 
+type twoViews struct {
+	A interface{}
+	B *[]int
+	C interface{}
+	D *[]int
+	E interface{}
+	F *map[string]int
+}
+
 var recTypeKinds = []string{"long-chains", "tree", "dict", "cyclic-slice", "cyclic-array", "struct-field", "map-of-pointers", "tree-first-used-concurrently", "shared-pointer-to-a-slice-of-a-named-byte-type",
-	"long-list-points-to-itself", "pointers-to-named-types-after-top-level-use"}
+	"long-list-points-to-itself", "pointers-to-named-types-after-top-level-use", "one-pointer-in-an-interface-and-in-a-typed-field"}
 
 func checkRecType(kind string, res *result) {
 	type tc struct {
@@ -782,6 +791,23 @@ func checkRecType(kind string, res *result) {
 				return ""
 			}})
 		}
+	case "one-pointer-in-an-interface-and-in-a-typed-field":
+		// the item is read into the interface{} first (a generic list or map); the typed field that follows is
+		// a reference to it. Two lists and a map: each reference must come back with the values of its own item.
+		x, y, m := []int{1, 2, 3}, []int{4, 5}, map[string]int{"k": 7}
+		cases = append(cases, tc{"&twoViews{A: &x, B: &x, C: &y, D: &y, E: &m, F: &m}", func() interface{} { return &twoViews{&x, &x, &y, &y, &m, &m} }, func() interface{} { return new(*twoViews) }, func(_, got interface{}) string {
+			g := *got.(**twoViews)
+			if g == nil || g.B == nil || g.D == nil || g.F == nil {
+				return fmt.Sprintf("decoded %+v", g)
+			}
+			if fmt.Sprint(*g.B) != fmt.Sprint(x) || fmt.Sprint(*g.D) != fmt.Sprint(y) || fmt.Sprint(*g.F) != fmt.Sprint(m) {
+				return fmt.Sprintf("decoded B=%v D=%v F=%v, encoded %v %v %v", *g.B, *g.D, *g.F, x, y, m)
+			}
+			if a, c := gen.CanonOf(g.A), gen.CanonOf(g.C); a != gen.CanonOf(x) || c != gen.CanonOf(y) {
+				return fmt.Sprintf("decoded A=%s C=%s", a, c)
+			}
+			return ""
+		}})
 	case "map-of-pointers":
 		leaf := &recPTree{}
 		cases = append(cases, tc{"PTree{a: &PTree{b: leaf}, c: leaf}", func() interface{} { return recPTree{"a": &recPTree{"b": leaf}, "c": leaf} }, func() interface{} { return new(recPTree) }, deep})
